@@ -424,6 +424,8 @@ PoolPrune(p) ==
                !.certs = {c \in @ : c.s >= r},
                !.known = keepB(@), !.pcert = keepB(@), !.pending = keepB(@),
                !.sentN = keepB(@), !.sentS = {s \in @ : s >= r},
+               \* certificates for pruned slots are refused, so children waiting on such parents are dropped
+               !.bpar = {x \in @ : x[2][1] >= r},
                !.prroot = r,
                !.prskip = {s \in @ : s >= r},
                !.prnf = keepB(@),
